@@ -83,6 +83,8 @@ impl Profile {
             "C04" => {
                 p.content = 12;
                 p.fail_p = 2;
+                // a few reserved / blank keys and short types: what gets past validation must still be composed by the rules
+                p.malformed_p = 1;
             }
             "C05" => {
                 p.funds = 12;
